@@ -44,29 +44,52 @@ func setup() {
 
 var (
 	poolOnce sync.Once
-	poolAddr [poolPeers]peerMap
-	poolKey  [poolPeers]string
+	poolAddr [2][poolPeers]peerMap
+	poolKeys [2][poolPeers]string
+	// addrStyle selects the pool of a run (Config "addr_style"): 0 = random
+	// bytes; 1 = identities whose bytes spell fragments of the store's own key
+	// syntax (a wire address is an arbitrary byte string chosen by the peer)
+	addrStyle int
 )
 
-// peerAddr is the k-th wire identity of the shared pool (deterministic bytes).
+// storeSyntax are the fragments the key-value persister builds its keys from.
+var storeSyntax = []string{":channel:", "Peer:", ":channel:", ":channel:", "Chan:", "staging:sig:"}
+
+// peerAddr is the k-th wire identity of the run's pool (deterministic bytes).
 func peerAddr(k int) peerMap {
 	poolOnce.Do(func() {
-		for i := range poolAddr {
-			var a simwire.Address
-			copy(a[:], kernel.NewRand(kernel.Derive(0x9ee7, i)).Bytes(len(a)))
-			poolAddr[i] = peerMap{channel.TestBackendID: &a}
-			// every other identity is reachable under several backends (one
-			// wire address per backend id)
-			for b := 1; i%2 == 1 && b <= 1+i/2; b++ {
-				var x simwire.Address
-				copy(x[:], kernel.NewRand(kernel.Derive(0x9ee7, i, b)).Bytes(len(x)))
-				poolAddr[i][wallet.BackendID(b)] = &x
+		for st := range poolAddr {
+			fill := func(a *simwire.Address, key ...any) {
+				copy(a[:], kernel.NewRand(kernel.Derive(0x9ee7, key...)).Bytes(len(a)))
+				if st == 1 {
+					// a prefix common to all identities, then a store-syntax
+					// fragment, then the distinguishing bytes
+					i := key[0].(int)
+					pre := []byte("hub-0001") // shared
+					frag := []byte(storeSyntax[i%len(storeSyntax)])
+					copy(a[:], pre)
+					copy(a[len(pre):], frag)
+				}
 			}
-			poolKey[i] = peerKey(poolAddr[i])
+			for i := range poolAddr[st] {
+				var a simwire.Address
+				fill(&a, i)
+				poolAddr[st][i] = peerMap{channel.TestBackendID: &a}
+				// every other identity is reachable under several backends (one
+				// wire address per backend id)
+				for b := 1; i%2 == 1 && b <= 1+i/2; b++ {
+					var x simwire.Address
+					fill(&x, i, b)
+					poolAddr[st][i][wallet.BackendID(b)] = &x
+				}
+				poolKeys[st][i] = peerKey(poolAddr[st][i])
+			}
 		}
 	})
-	return poolAddr[k]
+	return poolAddr[addrStyle][k]
 }
+
+func poolKey(k int) string { peerAddr(k); return poolKeys[addrStyle][k] }
 
 // peerKey is the harness's own canonical form of a peer.
 func peerKey(p peerMap) string {
@@ -333,6 +356,10 @@ func chanCfg(sc *kernel.Scenario, i int, k string, def int64) int64 {
 // process.
 func newWorld(sc *kernel.Scenario, res *kernel.Result, trace, check bool) *world {
 	setup()
+	addrStyle = int(sc.Cfg("addr_style", 0)) & 1
+	if addrStyle == 1 {
+		res.Count("probe.store-syntax-in-addresses", 1)
+	}
 	w := &world{prop: sc.Property, store: int(sc.Cfg("store", storeMem)), mode: int(sc.Cfg("mode", modeCrash)),
 		check: check, res: res, trace: trace, ctx: context.Background(), byID: map[channel.ID]*chn{}, lastBytes: map[int][]byte{}, verified: map[[3]uint64]bool{}}
 	if w.store != storeLDB {
@@ -464,6 +491,29 @@ func (c *chn) candidate(st *kernel.Step, key string, final, bad bool) (*channel.
 	return su.State, su.Actor
 }
 
+// reversion gives a state that the machine takes without validation the
+// version the step asks for (absent: the successor's).
+func (w *world) reversion(c *chn, s *channel.State, st *kernel.Step) {
+	cur := c.m.CurrentTX().State
+	if cur == nil {
+		return
+	}
+	switch st.Str("ver") {
+	case "same":
+		s.Version = cur.Version
+	case "lower":
+		if cur.Version == 0 {
+			return
+		}
+		s.Version = cur.Version - 1
+	case "higher":
+		s.Version = cur.Version + 5
+	default:
+		return
+	}
+	w.res.Count("probe.unvalidated-state-version-"+st.Str("ver"), 1)
+}
+
 // exec runs one primitive operation against the bare machine (before the
 // channel was created in the store) or the persisting machine (afterwards).
 // applicable=false means the step does not apply here and was skipped.
@@ -502,7 +552,7 @@ func (w *world) exec(c *chn, op string, st *kernel.Step) (err error, pan any, ap
 			}
 			seen[pi] = true
 			c.peers = append(c.peers, peerAddr(pi))
-			c.pkeys[poolKey[pi]] = true
+			c.pkeys[poolKey(pi)] = true
 		}
 		c.parent = nil
 		if pa := int(st.Int("parent")); st.Has("parent") && pa >= 0 {
@@ -531,6 +581,7 @@ func (w *world) exec(c *chn, op string, st *kernel.Step) (err error, pan any, ap
 			return nil, nil, false
 		}
 		s, actor := c.candidate(st, "cand", st.Str("kind") == "final", false)
+		w.reversion(c, s, st)
 		run(func() error { return c.m.ForceUpdate(s, actor) }, func() error { return c.psm.ForceUpdate(ctx, s, actor) })
 	case "sig":
 		run(func() error { _, e := c.m.Sig(); return e }, func() error { _, e := c.psm.Sig(ctx); return e })
@@ -579,9 +630,11 @@ func (w *world) exec(c *chn, op string, st *kernel.Step) (err error, pan any, ap
 		run(c.m.SetWithdrawn, func() error { return c.psm.SetWithdrawn(ctx) })
 	case "set-progressing":
 		s, _ := c.candidate(st, "prog", false, false)
+		w.reversion(c, s, st)
 		run(func() error { return c.m.SetProgressing(s) }, func() error { return c.psm.SetProgressing(ctx, s) })
 	case "set-progressed":
 		s, _ := c.candidate(st, "prog", false, false)
+		w.reversion(c, s, st)
 		ev := channel.NewProgressedEvent(c.id, &channel.ElapsedTimeout{}, s, 0)
 		run(func() error { return c.m.SetProgressed(ev) }, func() error { return c.psm.SetProgressed(ctx, ev) })
 	default:
